@@ -179,6 +179,10 @@ Proof.
   - destruct (valid s h && negb (h_closing (geth s h))) eqn:G; cbn [fst]; auto.
     apply andb_true_iff in G. destruct G as [V _]. unfold valid in V. apply Nat.ltb_lt in V.
     apply R5_do_close; auto.
+  - cbn [fst]. apply (do_walk_inv (R5 extc)).
+    + intros s0 h0 L0 H0. apply R5_do_close; auto.
+    + intros s0 l H0. eapply R5_same; [| | |exact H0]; reflexivity.
+    + exact H.
 Qed.
 
 Lemma R5_apis extc os : forall s, R5 extc s -> R5 extc (fst (apis s os)).
@@ -379,7 +383,8 @@ Qed.
 Lemma fire_ready_ok fx beh l : forall s cnt, Forall okev (snd (fst (fire_ready fx beh l s cnt))).
 Proof.
   induction l as [|[c|id] l IH]; intros s cnt; cbn [fire_ready]; [constructor|apply IH|].
-  pose proof (apis_ok (beh cnt) s) as X. destruct (apis s (beh cnt)) as [s1 e1].
+  destruct (ut_has s id); [|apply IH].
+  pose proof (apis_ok (beh cnt) (ut_remove s id)) as X. destruct (apis (ut_remove s id) (beh cnt)) as [s1 e1].
   specialize (IH s1 (S cnt)). destruct (fire_ready fx beh l s1 (S cnt)) as [[s2 e2] n2].
   cbn [fst snd] in *. constructor; [exact I|]. apply Forall_app. auto.
 Qed.
